@@ -145,6 +145,41 @@ func ModDir(engine, digest string) string {
 	return filepath.Join(os.TempDir(), "verif-mods", engine+"-"+Tier, digest)
 }
 
+var raceLogOff int64
+
+// RaceLogBase is the log_path given to the race detector through GORACE by
+// RaceEnv; the runtime appends ".<pid>".
+func raceLogFile() string {
+	for _, kv := range strings.Fields(os.Getenv("GORACE")) {
+		if strings.HasPrefix(kv, "log_path=") {
+			return fmt.Sprintf("%s.%d", kv[len("log_path="):], os.Getpid())
+		}
+	}
+	return ""
+}
+
+// RaceReports returns what the race detector has reported in this process
+// since the previous call ("" if nothing, or if not a race build).
+func RaceReports() string {
+	f := raceLogFile()
+	if f == "" {
+		return ""
+	}
+	b, err := os.ReadFile(f)
+	if err != nil || int64(len(b)) <= raceLogOff {
+		return ""
+	}
+	out := string(b[raceLogOff:])
+	raceLogOff = int64(len(b))
+	return out
+}
+
+// RaceEnv is a WorkerEnv for race builds: reports go to a per-process file
+// and do not stop the process.
+func RaceEnv(wid int) []string {
+	return []string{"GORACE=halt_on_error=0 exitcode=0 log_path=" + filepath.Join(Scratch, "racelog")}
+}
+
 // LockModDir serialises concurrent users of one generated-module directory
 // (the same case executed by two processes at once: determinism self-test,
 // a mutant run next to a normal run). It returns the unlock function.
@@ -528,7 +563,12 @@ func runParent(e Engine, tier string, seed uint64, workers int, budget time.Dura
 		os.WriteFile(path, b, 0666)
 		// the replay must reproduce in a fresh process
 		if v.v.Class != "process-fatal" {
-			out, err := exec.Command(self, append(append([]string(nil), ExtraWorkerArgs...), "-scratch", scratch, "-replay", path)...).CombinedOutput()
+			rc := exec.Command(self, append(append([]string(nil), ExtraWorkerArgs...), "-scratch", scratch, "-replay", path)...)
+			rc.Env = os.Environ()
+			if WorkerEnv != nil {
+				rc.Env = append(rc.Env, WorkerEnv(0)...)
+			}
+			out, err := rc.CombinedOutput()
 			if err == nil || !strings.Contains(string(out), "REPRODUCED") {
 				fmt.Fprintf(os.Stderr, "batch: violation %q of case %d did not reproduce on replay in a fresh process: harness nondeterminism\n%s\n", v.v.Class, v.index, out)
 				infra++
